@@ -13,7 +13,7 @@ ID = "C16"
 LEVEL = "model_checking"
 ENGINE = "E1 bounded-exhaustive generation-tree explorer"
 RULE = (
-    "every track of 1..5 (thorough: 1..7) notes over ticks {0,10,50,51,99,100,130} x 3 sustain layouts x 5 tempo maps; on each, every bound pair "
+    "every track of 1..5 (thorough: 1..7) notes over ticks {0,10,50,51,99,100,130} x 3 sustain layouts (+ the same notes written out of tick order) x 5 tempo maps; on each, every bound pair "
     "from ticks {note ticks, +-1, 0, last+10} and from timestamps {note times, +-1 us, 0, last note end +-1 us} in all five call "
     "forms; plus absent instrument / absent difficulty / note-less track; distinct = distinct (track, map, call); non-trivial = "
     "the interval has positive length"
@@ -24,7 +24,7 @@ ASSUMPTIONS = [
 ]
 
 TICKS = (0, 10, 50, 51, 99, 100, 130)
-MAPS = ((), ((50, 60000),), ((50, 60000), (100, 333333)), ((10, 1000), (51, 10**9), (99, 90500), (130, 120000)), ((1, 240000), (2, 30000)))
+MAPS = ((), ((50, 60000),), ((50, 60000), (100, 333333)), ((10, 1000), (51, 10**9), (99, 90500), (130, 120000)), ((1, 240000), (2, 30000)), ((10, 10**10),))  # the last map: 0.06 us per tick - neighbouring ticks share a microsecond
 
 PROBE_TMPL = '''
 ARGS = {args!r}      # bounds: ["tick", n] or ["us", n]
@@ -53,7 +53,7 @@ def setup():
 def plan(tier, seed):
     nmax = 5 if tier == "quick" else 7
     nmaps = len(MAPS)
-    lays = (0, 1, 2)
+    lays = (0, 1, 2, 3)
     shards = [("grid", mi, n, lay) for mi in range(nmaps) for n in range(1, nmax + 1) for lay in lays] + [("absent",)]
     return dict(shards=shards, bounds=dict(max_notes=nmax, tick_alphabet=list(TICKS), maps=[list(map(list, m)) for m in MAPS[:nmaps]], sustain_layouts=len(lays)), budget_s=600)
 
@@ -118,8 +118,16 @@ def run_shard(shard, ctx):
         elif lay == 2:  # every note sustained into (or past) the next one
             sus = [9 + 3 * i for i in range(n)]
         body = ["%d = N %d %d" % (t, i % 5, s) for i, (t, s) in enumerate(zip(ticks, sus))]
+        if lay == 3:  # note lines NOT in tick order (accepted while they stay inside one tempo region)
+            if n < 2:
+                continue
+            body = body[1:] + body[:1] if n == 2 else [body[-1]] + body[1:-1][::-1] + [body[0]]
         text = mk(res=100, sync=sync, tracks={"ExpertSingle": body})
-        c = impl.parse(text)
+        try:
+            c = impl.parse(text)
+        except ValueError:
+            ctx.hist["unsorted_track_rejected_by_parser(skipped)"] += 1
+            continue
         q = lambda t: impl.query(c, t)  # noqa: E731
         nt = [q(t) for t in ticks]
         lne = max(q(t + s) for t, s in zip(ticks, sus))
